@@ -581,7 +581,7 @@ impl PropImpl for C07 {
         vec!["level:document", "level:document-without-paragraph-function", "level:paragraph", "level:entry", "level:Control", "level:control-Source", "level:control-Binary", "indent:field-name-length", "indent:1", "immediate-empty-line:true", "one-liner:small", "one-liner:large", "pcmp:first-value", "pcmp:name-list", "ecmp:key", "ecmp:value-key", "ecmp:reverse-key", "fmt:identity", "fmt:one-per-line", "fmt:upper", "comment:between-fields", "comment:after-last-field", "comment:top", "comment:end", "whitespace-only-continuation-line", "control:substvar-in-relation-field", "control:uploaders", "control:paragraph-of-neither-kind"]
     }
     fn budget(&self, tier: Tier) -> Budget {
-        Budget { cases_per_lane: if tier == Tier::Quick { 10000 } else { 40_000 }, tape_max: 700, cpu_s: 10 }
+        Budget { cases_per_lane: if tier == Tier::Quick { 30000 } else { 120000 }, tape_max: 700, cpu_s: 10 }
     }
     fn spaces(&self, _tier: Tier) -> Vec<Space> {
         vec![Space { name: "settings grid (5x2x5x3x4x4x3) x 5 layouts".into(), size: GRID * GRID_LAYOUTS.len() as u64, exhaustive: true }]
